@@ -38,27 +38,27 @@ Fixpoint newly (before after : list bool) (i : nat) : list sexp :=
   end.
 
 Definition seen_of (s : astate nat) (c : nat) : list nat :=
-  match nth_error (cons nat s) c with Some k => seen k | None => [] end.
+  match nth_error (cons s) c with Some k => seen k | None => [] end.
 
 (* request-level bookkeeping next to the cache state: which requests have completed *)
 Definition set_nth {X} (n : nat) (x : X) (l : list X) : list X := upd n (fun _ => x) l.
 
-Definition counters (s : astate nat) : list sexp := [snat (n_polls nat s); snat (n_some nat s + n_none nat s)].
+Definition counters (s : astate nat) : list sexp := [snat (n_polls s); snat (n_some s + n_none s); snat (n_some s)].
 
 (* one scheduled step; returns new state, completion flags, output *)
 Definition xstep_run (fuel : nat) (reqs : list (list nat)) (s : astate nat) (done : list bool) (a : xstep)
   : astate nat * list bool * sexp :=
   match a with
   | XFire =>
-      let s' := source_ready nat s in
-      (s', done, L ([sym "fire"; L (newly (woken_flags (cons nat s)) (woken_flags (cons nat s')) 0)] ++ counters s'))
+      let s' := source_ready s in
+      (s', done, L ([sym "fire"; L (newly (woken_flags (cons s)) (woken_flags (cons s')) 0)] ++ counters s'))
   | XPoll c =>
       match nth_error reqs c, nth_error done c with
       | Some ds, Some false =>
-          let s0 := clear_woken nat c s in
-          match request_poll nat fuel (answers ds) s0 c with
+          let s0 := clear_woken c s in
+          match request_poll fuel (answers ds) s0 c with
           | Done (s', p) =>
-              let w := L (newly (woken_flags (cons nat s0)) (woken_flags (cons nat s')) 0) in
+              let w := L (newly (woken_flags (cons s0)) (woken_flags (cons s')) 0) in
               match p with
               | Pending => (s', done, L ([sym "poll"; sym "pending"; w] ++ counters s'))
               | Ready _ => (s', set_nth c true done,
@@ -94,13 +94,13 @@ Fixpoint drain (n : nat) (fuel : nat) (reqs : list (list nat)) (s : astate nat) 
   match n with
   | O => (s, done, [sym "DRAIN-OVERFLOW"])
   | S n' =>
-      match find_runnable (cons nat s) done 0 with
+      match find_runnable (cons s) done 0 with
       | Some c =>
           let '(s1, d1, o) := xstep_run fuel reqs s done (XPoll c) in
           let '(s2, d2, os) := drain n' fuel reqs s1 d1 in
           (s2, d2, L [snat c; o] :: os)
       | None =>
-          match waiting nat s with
+          match waiting s with
           | Some _ =>
               let '(s1, d1, o) := xstep_run fuel reqs s done XFire in
               let '(s2, d2, os) := drain n' fuel reqs s1 d1 in
@@ -120,7 +120,7 @@ Definition run_async (reqs : list (list nat)) (script : list (sstep nat)) (sched
   let n := length reqs in
   let fuel := S (S (length script)) in
   let done0 := repeat false n in
-  let '(s1, d1, outs) := xrun fuel reqs (init nat script n) done0 sched in
+  let '(s1, d1, outs) := xrun fuel reqs (init script n) done0 sched in
   let '(s2, d2, douts) := drain 1000 fuel reqs s1 d1 in
   L [L outs; L douts; L (enc_final s2 d2 0)].
 
@@ -129,10 +129,10 @@ Fixpoint run_sync_reqs (fuel : nat) (reqs : list (list nat)) (c : cache nat) (i 
   match reqs with
   | [] => (c, [])
   | ds :: r =>
-      match request_sync nat fuel (answers ds) c i with
+      match request_sync fuel (answers ds) c i with
       | Done (c1, _) =>
-          let seen_i := match nth_error (c_cons nat c1) i with Some k => seen k | None => [] end in
-          let o := L [sym "req"; enc_results seen_i ds; snat (c_calls nat c1); snat (length (c_items nat c1)); slist snat seen_i] in
+          let seen_i := match nth_error (c_cons c1) i with Some k => seen k | None => [] end in
+          let o := L [sym "req"; enc_results seen_i ds; snat (c_calls c1); snat (length (c_items c1)); slist snat seen_i] in
           let '(c2, os) := run_sync_reqs fuel r c1 (S i) in
           (c2, o :: os)
       | Panic t => (c, [L [sym "PANIC"; sym t]])
@@ -141,9 +141,9 @@ Fixpoint run_sync_reqs (fuel : nat) (reqs : list (list nat)) (c : cache nat) (i 
   end.
 
 Definition run_sync (reqs : list (list nat)) (script : list (sstep nat)) : sexp :=
-  let src := src_items nat script in
+  let src := src_items script in
   let fuel := S (S (length src)) in
-  L (snd (run_sync_reqs fuel reqs (cache_new nat src (length reqs)) 0)).
+  L (snd (run_sync_reqs fuel reqs (cache_new src (length reqs)) 0)).
 
 Definition run_case (c : sexp) : sexp :=
   match c with
